@@ -14,7 +14,8 @@ def main(argv=None):
     res = taskworld.run(ck)
     world.report(ck, res, select=lambda n: any(p in n for p in PATS) and "C08" not in n and "C09" not in n)
     res2 = world.run_functions(ck, ["buffers"], BUF, timeout=20)
-    world.report(ck, res2)
+    from vlib.modelreplay import make_replayer
+    world.report(ck, res2, replayer=make_replayer(ck, ["buffers"]))
     res3 = chanworld.run(ck, [("channel.HTTPChannel.service", "W")])
     world.report(ck, res3, select=lambda n: "close-when-flushed-means-queue-dropped" in n or "coverage" in n)
     ck.trusted.extend([
